@@ -321,31 +321,6 @@ theorem admitted_stream_digests_survive_restart (a : Adm) (w : Wire) (ds : List 
   rw [show nd.dg.disk.txs = embSet w nd.st from htxs] at this
   exact this
 
-theorem seqRun_is_deliveries (a : Adm) (calls : List C06.Call) : ∀ (order : List Nat) (acc : C06.St × List (Nat × Res Unit)),
-    ∃ ds : List Delivery, (∀ d ∈ ds, ∃ c ∈ calls, d = .tx c.tx c.payload) ∧
-      (order.foldl (C06.seqStep a.env a.subs calls) acc).1 = ds.foldl (step6 a) acc.1 := by
-  intro order
-  induction order with
-  | nil => intro acc; exact ⟨[], by simp, rfl⟩
-  | cons i rest ih =>
-    intro acc
-    simp only [List.foldl_cons]
-    cases hc : calls[i]? with
-    | none =>
-      have : C06.seqStep a.env a.subs calls acc i = acc := by simp [C06.seqStep, hc]
-      rw [this]; exact ih acc
-    | some c =>
-      obtain ⟨ds, h1, h2⟩ := ih (C06.seqStep a.env a.subs calls acc i)
-      refine ⟨.tx c.tx c.payload :: ds, ?_, ?_⟩
-      · intro d hd
-        rcases List.mem_cons.mp hd with rfl | hd
-        · exact ⟨c, List.mem_of_getElem? hc, rfl⟩
-        · exact h1 d hd
-      · rw [h2]
-        simp only [List.foldl_cons]
-        congr 1
-        simp [C06.seqStep, hc, step6, deliver6]
-
 /-- **Concurrent submissions.** After any delivery history, ANY number of concurrent `Add` calls under ANY interleaving of
     their read / write transactions (C06 `concurrent_adds_serialise`) end in an admission state whose digests — built by
     feeding its admitted list to C08 — are C08's folds over that list, and whose protocol view is a valid DAG. -/
@@ -394,5 +369,55 @@ theorem range_reply_is_c08_listing (a : Adm) (w : Wire) (ds : List Delivery) (hs
 
 example : (C06.handleList Ex.adm.env Ex.adm.subs {} [⟨Ex.root, some 1⟩, ⟨Ex.mk 13 5 [11] 103, some 3⟩, ⟨Ex.child, some 2⟩]).1.txs = [Ex.root] := by decide
 example : C08.listing (Node.run Ex.adm cfg Ex.wire Ex.ds : Node NB).dg 0 5 = .ok [11, 12] := by decide
+
+/-! ### the models of `state.Add` agree pairwise (C06 ↔ C08 here; C06 ↔ C07 is `add_decisions_agree`) -/
+
+/-- **The heads agree.** C06 (`St.head`, 0 = empty hash) and C08 (`Disk.head`) each apply `dag.add`'s head rule to their
+    own copy of the highest clock; along every delivery history they record the same head transaction. -/
+theorem heads_agree (a : Adm) (w : Wire) (ds : List Delivery) (hs : ∀ d ∈ ds, Small d.ref) :
+    let nd : Node NB := Node.run a cfg w ds
+    (nd.st.txs = [] ∧ nd.st.head = 0 ∧ nd.dg.disk.head = none) ∨
+    (nd.st.txs ≠ [] ∧ nd.dg.disk.head = some (embRef nd.st.head) ∧ ∃ t ∈ nd.st.txs, t.ref = nd.st.head ∧ t.clock = nd.st.lcHigh) := by
+  intro nd
+  have hok : NodeOK a cfg w nd := NodeOK.run ds (NodeOK.init a cfg w) hs
+  have hh : HeadOK nd := headOK_run cfg_good ds (NodeOK.init a cfg w) (Or.inl ⟨rfl, rfl⟩) hs
+  rcases hh with ⟨e, h8⟩ | ⟨ne, h8⟩
+  · rcases hok.1.inv.head with ⟨_, h0⟩ | ⟨t, ht, _⟩
+    · exact Or.inl ⟨e, h0, h8⟩
+    · rw [e] at ht; cases ht
+  · rcases hok.1.inv.head with ⟨e, _⟩ | h
+    · exact absurd e ne
+    · exact Or.inr ⟨ne, h8, h⟩
+
+/-- **The two models of the prev verifier agree, outcome by outcome** (`NewPrevTransactionsVerifier`: C06 counts the
+    highest prev clock from −1 in `Int`, C08 its successor from 0 in `Nat`; they look the prevs up in differently ordered
+    shelves keyed by differently typed refs): on every reachable composed node, for ANY transaction with SHA-256 prevs,
+    C08's verifier on the image returns C06's verdict — ok, missing prev, or wrong clock. -/
+theorem prev_verifiers_agree (a : Adm) (w : Wire) (ds : List Delivery) (hs : ∀ d ∈ ds, Small d.ref) (tx : C06.Tx)
+    (hp : ∀ p ∈ tx.prevs, Small p) :
+    let nd : Node NB := Node.run a cfg w ds
+    nd.dg.disk.verifyPrevs (embTx w tx) = prevErr8 (C06.verifyPrevs nd.st.txs tx) := by
+  intro nd
+  have hok : NodeOK a cfg w nd := NodeOK.run ds (NodeOK.init a cfg w) hs
+  exact (hok.sinv cfg_good).2.verifyPrevs_agree tx hp
+
+/-- **The digest layer on its own is exactly as strict as the admission layer's structural checks.** If the digest state
+    of a reachable composed node is handed ANY transaction directly (bypassing admission; SHA-256 ref and prevs), C08's
+    `add` stores it if and only if C06's structural conditions hold: ref not stored, prev verifier ok, single-root rule.
+    So what C06 adds on top is exactly the signature and payload-hash checks, and a C06-rejected delivery whose
+    rejection is structural (duplicate, missing prev, wrong clock, second root) would be refused by C08 as well. -/
+theorem digest_layer_stores_iff_structurally_admissible (a : Adm) (w : Wire) (ds : List Delivery)
+    (hs : ∀ d ∈ ds, Small d.ref) (tx : C06.Tx) (ht : Small tx.ref) (hp : ∀ p ∈ tx.prevs, Small p) :
+    let nd : Node NB := Node.run a cfg w ds
+    (C08.add cfg nd.dg (embTx w tx) {}).1.disk.txs = nd.dg.disk.txs ++ [embTx w tx] ↔
+      (tx.ref ∉ C06.refsOf nd.st.txs ∧ C06.verifyPrevs nd.st.txs tx = .ok () ∧ (tx.prevs = [] → C06.hasRoot nd.st.txs = false)) := by
+  intro nd
+  have hok : NodeOK a cfg w nd := NodeOK.run ds (NodeOK.init a cfg w) hs
+  obtain ⟨hsinv, hrel⟩ := hok.sinv cfg_good
+  exact add8_stores_iff cfg_good hsinv hrel tx ht hp
+
+example : (Node.run Ex.adm cfg Ex.wire Ex.ds : Node NB).dg.disk.head = some (embRef 12) ∧ (run6 Ex.adm Ex.ds).head = 12 := by decide
+example : (Node.run Ex.adm cfg Ex.wire Ex.ds : Node NB).dg.disk.verifyPrevs (embTx Ex.wire (Ex.mk 13 5 [11] 103)) = .err "bad-clock" ∧
+    C06.verifyPrevs (run6 Ex.adm Ex.ds).txs (Ex.mk 13 5 [11] 103) = .err "clock" := by decide
 
 end Nuts.Compose.Dag.Props
